@@ -50,7 +50,10 @@ mpn_is_invert (mp_srcptr xp, mp_srcptr ap, mp_size_t n)
   mpn_mul_n (tp, xp, ap, n);
   cy = mpn_add_n (tp + n, tp + n, ap, n); /* A * msb(X) */
   if (cy != 0)
-    return 0;
+    {
+      TMP_FREE;
+      return 0;
+    }
 
   /* now check B^(2n) - X*A <= A */
   mpn_not (tp, 2 * n);
